@@ -37,6 +37,9 @@ func (api *PcApi) HandleLogsStream(c *gin.Context) {
 	}
 	for _, procName := range procNames {
 		logChan := make(chan LogMessage, 256)
+		// closed by handleLog when it stops receiving: a sender must never block on, or send to, a channel
+		// that nobody reads any more
+		stopChan := make(chan struct{})
 		chanCloseMtx := &sync.Mutex{}
 		isChannelClosed := false
 		connector := pclog.NewConnector(
@@ -46,7 +49,11 @@ func (api *PcApi) HandleLogsStream(c *gin.Context) {
 						Message:     message,
 						ProcessName: procName,
 					}
-					logChan <- msg
+					select {
+					case logChan <- msg:
+					case <-stopChan:
+						return
+					}
 				}
 				if !follow {
 					chanCloseMtx.Lock()
@@ -65,11 +72,15 @@ func (api *PcApi) HandleLogsStream(c *gin.Context) {
 				if isChannelClosed {
 					return 0, nil
 				}
-				logChan <- msg
+				select {
+				case logChan <- msg:
+				case <-stopChan:
+					return 0, nil
+				}
 				return len(message), nil
 			},
 			endOffset)
-		go api.handleLog(ws, procName, connector, logChan, done)
+		go api.handleLog(ws, procName, connector, logChan, done, stopChan)
 
 		err = api.project.GetLogsAndSubscribe(procName, connector)
 		if err != nil {
@@ -80,7 +91,7 @@ func (api *PcApi) HandleLogsStream(c *gin.Context) {
 
 }
 
-func (api *PcApi) handleLog(ws *websocket.Conn, procName string, connector *pclog.Connector, logChan chan LogMessage, done chan struct{}) {
+func (api *PcApi) handleLog(ws *websocket.Conn, procName string, connector *pclog.Connector, logChan chan LogMessage, done chan struct{}, stopChan chan struct{}) {
 	defer func(project app.IProject, name string, observer pclog.LogObserver) {
 		err := project.UnSubscribeLogger(name, observer)
 		if err != nil {
@@ -88,6 +99,8 @@ func (api *PcApi) handleLog(ws *websocket.Conn, procName string, connector *pclo
 		}
 	}(api.project, procName, connector)
 	defer ws.Close()
+	// runs first: releases a writer that is blocked on logChan, so that UnSubscribeLogger can take the buffer lock
+	defer close(stopChan)
 	for {
 		select {
 		case msg, open := <-logChan:
@@ -106,7 +119,6 @@ func (api *PcApi) handleLog(ws *websocket.Conn, procName string, connector *pclo
 			}
 		case <-done:
 			log.Warn().Msg("Socket closed remotely")
-			close(logChan)
 			return
 		}
 
